@@ -260,6 +260,13 @@ class FieldFamily:
                     if opt:
                         for e in ([2, 0, 1] + [0] * 9, [0, 0, 2, 0, 0, 1] + [0] * 6, [0] * 12, [0] * 11 + [1], [2] + [0] * 10 + [1]):
                             yield dict(opt=opt, p=p, d=12, mods=f[:12], seq=[["sgn0", [c % p for c in e], None]])
+            # powers of the constants 0 and 1 (and of sparse elements) with exponents 0, 1, 2
+            for p in (3, 7, REAL["bn128"]):
+                for d in (1, 2, 12):
+                    mods = [] if d == 1 else ((small2[p][0] if p in small2 else REAL_MODS[("bn128", 2)]) if d == 2 else
+                                              (irr12[p][0][:12] if p in irr12 else REAL_MODS[("bn128", 12)]))
+                    for x in ([0] * d, [1] + [0] * (d - 1), [0] * (d - 1) + [1], [p - 1] + [0] * (d - 1)):
+                        yield dict(opt=opt, p=p, d=d, mods=mods, seq=[["pow", x, e] for e in (0, 1, 2, 3)])
             # elements built from unreduced representatives (p itself, multiples, negatives); aliasing; sgn0 after arithmetic
             for cname, p in list(REAL.items()) + [("small", 7)]:
                 for d in (1, 2, 12):
